@@ -277,12 +277,14 @@ package evm
 //@   trusted
 //@   objinv ctrler != nil
 //@   modifies everything
+//@   preserves RigoApp.*, Config.*
 //@   ensures (result1 == nil) <==> (result0 != nil)
 
 //@ func (ctrler *EVMCtrler) Query(req)
 //@   nopanic
 //@   objinv ctrler != nil
 //@   modifies everything
+//@   preserves RigoApp.*, Config.*
 
 // ---- effect clauses (C01)
 //@ effect (*StateDBWrapper).Finish maprange#0: every iteration writes only the account of its own address (distinct addresses, distinct account objects) and the post-condition is stated over the whole tracked set (visited-set invariant, C17)
